@@ -14,6 +14,9 @@ from .dag import cadd, cmul, cis0, cneg, cinv, QS
 MAX_TERMS = 400000
 
 
+POW_TABLES = {}      # atom id -> (e -> fully reduced Poly of atom**e)
+
+
 class TooBig(Exception):
     pass
 
@@ -152,6 +155,16 @@ class Poly:
                         clean[m] = c
                 else:
                     v, e, (mm, rep) = hit
+                    tab = POW_TABLES.get(v)
+                    if tab is not None:
+                        # fully reduced power from a table (cyclotomic field: z**e mod Phi computed by polynomial division)
+                        rest = tuple((w, f) for w, f in m if w != v)
+                        RULES_save = RULES.pop(v)
+                        try:
+                            work.append(Poly({tuple(sorted(rest)): c}) * tab(e))
+                        finally:
+                            RULES[v] = RULES_save
+                        continue
                     q, rem = divmod(e, mm)
                     rest = tuple((w, f) for w, f in m if w != v) + (((v, rem),) if rem else ())
                     base = Poly({tuple(sorted(rest)): c})
@@ -371,12 +384,21 @@ def eliminate_cospi(num: Poly) -> Poly:
                 rep[((zeta.id, pw),) if pw else ()] = -c
         RULES[zeta.id] = (deg, Poly(rep))
     zpow = {}
+    zdeg = RULES[zeta.id][0]
 
     def zp(k):
         k %= 2 * M
         if k not in zpow:
-            zpow[k] = Poly({((zeta.id, k),) if k else (): Fraction(1)}).reduce()
+            if k < zdeg:
+                zpow[k] = Poly({((zeta.id, k),) if k else (): Fraction(1)})
+            else:
+                # z**k mod Phi_2M by polynomial division (repeated rule application explodes for prime M >= 17)
+                import sympy
+                x = sympy.Symbol("x")
+                r = sympy.Poly(sympy.rem(x ** k, sympy.cyclotomic_poly(2 * M, x), x), x)
+                zpow[k] = Poly({(((zeta.id, int(mon[0])),) if mon[0] else ()): Fraction(int(co)) for mon, co in r.terms() if co != 0})
         return zpow[k]
+    POW_TABLES[zeta.id] = zp
     cosp = {}
     out = Poly({})
 
